@@ -1,79 +1,208 @@
 """C07 - proposer selection is deterministic and picks a suffrage member.
-Spec: Proposer.tla. Binding A: every state of the exhaustive run (all listings = permutations of all
-non-empty subsets of N nodes, x points x previous-block byte sums x which node is local x how many
-proposers fail) and the final state of every -simulate behaviour (up to 64 nodes) is one case run
-through the real isaac.BaseProposalSelector (real getNodes sort, real BlockBasedProposerSelector.Select,
-real TempPool, really signed proposals).
+Spec: Proposer.tla. Binding A, two parts.
+
+Single cases: every state of the exhaustive run (all listings = permutations of all non-empty subsets of N
+nodes, x points x previous-block byte sums x which node is local x how many proposers fail) and the final
+state of every -simulate behaviour (up to 64 nodes) is one case run through a real isaac.BaseProposalSelector
+made for it (real getNodes sort, real BlockBasedProposerSelector.Select, real TempPool, really signed proposals).
+
+Histories (Hist = TRUE): the statement makes the proposer a function of (point, previous block, suffrage) alone,
+so it may not depend on what the selector OBJECT of a node was asked before. A script is a chain that grows
+block by block - every block may change the suffrage (join / leave / swap / nothing) - and selections put to
+long-lived selector objects at the heights and rounds of that chain (GetNodesFunc answers by block height from
+the chain as it is at that moment, nothing above its top). Every maximal script of the exhaustive run and the
+last state of every -simulate behaviour (up to 64 nodes, two selector objects, also late selections for older
+heights, now and then a failing proposer) is replayed on real long-lived BaseProposalSelector objects; every
+selection is also put to a selector object made for that single call (a node that has just started) with the
+same point, previous block and suffrage in another listing.
 
 Verdicts come from the statement, evaluated on what the real code did:
   non-member            a selected / winning proposer is not in the listed suffrage
+  non-member;long-lived-selector   the same, by a selector object that was asked before (e.g. a node that left with the last block)
+  history-dependent     a selector object that was asked before selects another proposer than one made for the call
+                        (same point, previous block, suffrage)
   order-dependent       two listings of the same suffrage (same point, previous block) select different proposers
   node-dependent        two nodes (different `local`) select different first proposers for the same input
   fallback-order-dependent  after the same failures, two listings continue with different proposers
   failed-proposer-selected-again
 Differences to the specification's own choice (sorted by address, index (sum+height+round) mod n) that keep
 the statement are reported as evidence only."""
+import bisect
 import os
 import random
+import re
+import shutil
+import time
 from vlib import core
 
 
-def run(ctx):
-    quick = ctx.tier == "quick"
-    cfg = "Proposer_mc_quick.cfg" if quick else "Proposer_mc_thorough.cfg"
-    r, steps = ctx.tlc_dump_steps("Proposer", cfg, timeout=1500, workers=4)
-    nex = len(steps)
-    _, behs = ctx.tlc_simulate("Proposer", "Proposer_sim.cfg", num=150 if quick else 1500, depth=70, timeout=1200)
-    rng = random.Random(ctx.seed)
-    for b in behs:
-        c = b[-1]
-        steps.append(c)
-        if len(c["listing"]) > 1:
-            for _ in range(2):          # two more listings of the same suffrage: the specification's answer is the same
-                c2 = dict(c)
-                c2["listing"] = list(c["listing"])
-                rng.shuffle(c2["listing"])
-                steps.append(c2)
-    ctx.exhaustive = True
-    ctx.rule = ("cases (listing, point, previous-block byte sum, local node, number of failing proposers): exhaustive = every "
-                "permutation of every non-empty subset of %d nodes x the points/sums of %s; seeded = one random case per -simulate "
-                "behaviour with 1..64 nodes; non-trivial = at least 2 nodes listed; distinct by the whole case" % (4 if quick else 5, cfg))
-    cin = os.path.join(ctx.work, "cases.ndjson")
-    cout = os.path.join(ctx.work, "res.ndjson")
-    core.write_ndjson(cin, [{k: s[k] for k in ("listing", "order", "h", "r", "hs", "local", "nfail")} for s in steps])
-    ctx.vh(["C07", "replay", "--in", cin, "--out", cout], timeout=2400)
-    rows = core.read_ndjson(cout)
-    if len(rows) != len(steps):
-        raise core.MachineryError("harness answered %d of %d cases" % (len(rows), len(steps)))
+def parse_tla(s):
+    """value printed by TLC (ints, <<..>>, {..}, [a |-> ..]) -> Python (sets become lists)"""
+    pos, n = 0, len(s)
+    fld = re.compile(r"(\w+)\s*\|->")
+    num = re.compile(r"-?\d+")
 
-    groups = {}      # (suffrage, h, r, hs) -> {first selected: example}          nfail = 0, any local, any order
-    fgroups = {}     # (suffrage, h, r, hs, local, nfail) -> {chain: example}
-    skipped = 0
-    diverge = {}
-    slowest = 0
-    for i, (c, x) in enumerate(zip(steps, rows)):
+    def ws():
+        nonlocal pos
+        while pos < n and s[pos] in " \n\t":
+            pos += 1
+
+    def seq(close):
+        nonlocal pos
+        out = []
+        ws()
+        if s.startswith(close, pos):
+            pos += len(close)
+            return out
+        while True:
+            out.append(val())
+            ws()
+            if s.startswith(close, pos):
+                pos += len(close)
+                return out
+            if s[pos] != ",":
+                raise ValueError(s[pos:pos + 30])
+            pos += 1
+
+    def val():
+        nonlocal pos
+        ws()
+        if s.startswith("<<", pos):
+            pos += 2
+            return seq(">>")
+        if s[pos] == "{":
+            pos += 1
+            return seq("}")
+        if s[pos] == "[":
+            pos += 1
+            out = {}
+            while True:
+                ws()
+                m = fld.match(s, pos)
+                if not m:
+                    raise ValueError(s[pos:pos + 30])
+                pos = m.end()
+                out[m.group(1)] = val()
+                ws()
+                if s[pos] == "]":
+                    pos += 1
+                    return out
+                if s[pos] != ",":
+                    raise ValueError(s[pos:pos + 30])
+                pos += 1
+        m = num.match(s, pos)
+        if not m:
+            raise ValueError(s[pos:pos + 30])
+        pos = m.end()
+        return int(m.group())
+
+    v = val()
+    ws()
+    if pos != n:
+        raise ValueError("trailing " + s[pos:pos + 30])
+    return v
+
+
+STEP = re.compile(r'^(?:/\\ )?step = "(.*)"$')
+
+
+def script_strings(path, last_only=False):
+    out = []
+    with open(path, errors="replace") as f:
+        for line in f:
+            m = STEP.match(line.rstrip("\n"))
+            if m and m.group(1):
+                out.append(m.group(1))
+    return out[-1:] if last_only else out
+
+
+def maximal(strs):
+    """scripts that are not the beginning of another script (a script is printed as <<e1, e2, ...>>)"""
+    heads = sorted(t[:-2] for t in strs)
+    out = []
+    for t in heads:
+        p = t + ", "
+        j = bisect.bisect_left(heads, p)
+        if j < len(heads) and heads[j].startswith(p):
+            continue
+        out.append(t + ">>")
+    return out
+
+
+def cfg_consts(name):
+    txt = open(os.path.join(core.SPEC, name)).read()
+    return {k: int(v) for k, v in re.findall(r"^\s*(\w+)\s*=\s*(\d+)\s*$", txt, re.M)}
+
+
+def hist_scripts(ctx, cfg, sim=None):
+    """the scripts of the history part: exhaustive (maximal scripts of the dump) or -simulate (last state of each behaviour)"""
+    k = cfg_consts(cfg)
+    order = sorted(range(1, k["N"] + 1), key=lambda i: (i * k["Mul"]) % k["Mod"])
+    try:
+        if sim is None:
+            dump = os.path.join(ctx.work, "hdump%d" % (getattr(ctx, "_ntlc", 0) + 1))
+            ctx.tlc("Proposer", cfg, args=["-dump", dump], timeout=1500, workers=8)
+            strs = maximal(script_strings(dump + ".dump"))
+            os.remove(dump + ".dump")
+        else:
+            num, depth = sim
+            d = os.path.join(ctx.work, "hsim%d" % (getattr(ctx, "_ntlc", 0) + 1))
+            os.makedirs(d)
+            ctx.tlc("Proposer", cfg, args=["-simulate", "file=%s/t,num=%d" % (d, num), "-depth", depth, "-seed", ctx.seed],
+                    workers=1, timeout=1200, count=False)
+            strs = []
+            for f in sorted(os.listdir(d), key=lambda x: int(x.rsplit("_", 1)[1]) if x.rsplit("_", 1)[1].isdigit() else 0):
+                strs += script_strings(os.path.join(d, f), last_only=True)
+            shutil.rmtree(d, ignore_errors=True)
+            ctx.states += len(strs)
+            ctx.transitions += len(strs)
+        scripts = [parse_tla(t) for t in strs]
+    except ValueError as e:
+        raise core.MachineryError("cannot decode a script printed by TLC: %s" % e)
+    return [{"script": sc, "order": order} for sc in scripts if any(e["k"] == 1 for e in sc)]
+
+
+class Judge:
+    """evaluates the statement on what the real code did"""
+
+    def __init__(self, ctx):
+        self.ctx = ctx
+        self.groups = {}      # (suffrage, h, r, hs) -> {first selected: example}      nfail = 0, any local, any order; history-free calls
+        self.fgroups = {}     # (suffrage, h, r, hs, local, nfail) -> {chain: example}  history-free calls
+        self.skipped = 0
+        self.total = 0
+        self.diverge = {}
+        self.slowest = 0
+        self.other_heights = {}
+
+    def observe(self, c, x, case, who=""):
+        """c: listing, h, r, hs, local, nfail (+ chain, winner of the specification); x: what one real Select call did.
+        Returns the proposers the real code selected, in order, or None (no verdict from this call)."""
+        ctx = self.ctx
+        self.total += 1
+        self.slowest = max(self.slowest, x.get("ms", 0))
         S = tuple(sorted(c["listing"]))
-        ctx.case([c["listing"], c["h"], c["r"], c["hs"], c["local"], c["nfail"]], nontrivial=len(S) > 1,
-                 sample={"case": {k: c[k] for k in ("listing", "h", "r", "hs", "local", "nfail")},
-                         "real": {k: x[k] for k in ("selected", "asked", "winner")}, "spec": {"chain": c["chain"], "winner": c["winner"]}})
-        ctx.traces += 1
-        slowest = max(slowest, x["ms"])
-        case = {"case": c, "real": x}
+        sfx = (";" + who) if who else ""
         if x.get("panic"):
-            ctx.violation("panic", "BaseProposalSelector.Select panicked: %s" % x["panic"][:300], case)
-            continue
+            ctx.violation("panic" + sfx, "BaseProposalSelector.Select panicked: %s" % x["panic"][:300], case)
+            return None
         if x.get("err"):
-            ctx.violation("select-error", "BaseProposalSelector.Select failed for listing %s: %s" % (c["listing"], x["err"][:200]), case)
-            continue
+            ctx.violation("select-error" + sfx, "BaseProposalSelector.Select failed for point (%d,%d), listing %s: %s" % (
+                c["h"], c["r"], c["listing"], x["err"][:200]), case)
+            return None
         # what the real code selected, in order: the nodes the real ProposerSelectFunc returned; with one node listed
         # the code does not call it and uses that node
         ev = [tuple(e) for e in x["events"]]
         chain = [n for (k, n) in ev if k == 0]
-        if not chain and len(c["listing"]) == 1:
-            chain = list(c["listing"])
         if not chain:
-            ctx.violation("nothing-selected", "no proposer was selected for listing %s" % c["listing"], case)
-            continue
+            asked = [n for (k, n) in ev if k == 1]
+            if asked:
+                chain = [asked[0]]
+            elif len(c["listing"]) == 1:
+                chain = list(c["listing"])
+        if not chain:
+            ctx.violation("nothing-selected" + sfx, "no proposer was selected for listing %s" % c["listing"], case)
+            return None
         # the script did not happen as written when the proposer wait ran out before a selected node was asked (the
         # code then drops it without a request): every selected node other than local that is followed by another
         # selection must have been asked in between; with failures scripted also the last one. Skip, never an alarm.
@@ -87,63 +216,214 @@ def run(ctx):
         if len(c["listing"]) == 1 and chain[0] != c["local"] and (1, chain[0]) not in ev:
             stalled = True
         if stalled:
-            skipped += 1
-            continue
+            self.skipped += 1
+            return None
         for p in chain:
             if p not in S:
-                ctx.violation("non-member", "node %s selected for suffrage %s (listing %s)" % (p, list(S), c["listing"]), case)
+                ctx.violation("non-member" + sfx, "node %s selected for point (%d,%d), suffrage %s (listing %s)" % (
+                    p, c["h"], c["r"], list(S), c["listing"]), case)
         if x["winner"] not in S and x["winner"] != c["local"]:
-            ctx.violation("non-member", "proposal by %s returned for suffrage %s" % (x["winner"], list(S)), case)
+            ctx.violation("non-member" + sfx, "proposal by %s returned for point (%d,%d), suffrage %s" % (
+                x["winner"], c["h"], c["r"], list(S)), case)
         if c["nfail"] == 0 and x["winner"] != chain[0]:
-            ctx.violation("proposal-not-from-selected-proposer", "listing %s: %s selected, proposal of %s returned" % (
+            ctx.violation("proposal-not-from-selected-proposer" + sfx, "listing %s: %s selected, proposal of %s returned" % (
                 c["listing"], chain[0], x["winner"]), case)
         if not x["valid"]:
-            ctx.violation("wrong-proposal", "the proposal returned for listing %s is not for the point/previous block asked" % c["listing"], case)
+            ctx.violation("wrong-proposal" + sfx, "the proposal returned for listing %s is not for the point/previous block asked" % c["listing"], case)
         if len(set(chain)) != len(chain):
-            ctx.violation("failed-proposer-selected-again", "selected %s for listing %s" % (chain, c["listing"]), case)
-        g = groups.setdefault((S, c["h"], c["r"], c["hs"]), {})
-        g.setdefault(chain[0], (c, x))
-        fg = fgroups.setdefault((S, c["h"], c["r"], c["hs"], c["local"], c["nfail"]), {})
-        fg.setdefault(tuple(chain), (c, x))
+            ctx.violation("failed-proposer-selected-again" + sfx, "selected %s for listing %s" % (chain, c["listing"]), case)
+        hs = [g for g in x.get("heights", []) if g != max(c["h"] - 1, 0)]
+        if hs and "script" in case:
+            self.other_heights[hs[0] - c["h"]] = self.other_heights.get(hs[0] - c["h"], 0) + 1
         # evidence: the specification's own choice
-        if chain != c["chain"]:
-            diverge["chain"] = diverge.get("chain", 0) + 1
-            ctx.extra.setdefault("spec_divergence_example", {"case": c, "real": x})
-        elif x["winner"] != c["winner"]:
-            diverge["winner"] = diverge.get("winner", 0) + 1
-            ctx.extra.setdefault("spec_divergence_example", {"case": c, "real": x})
-        if x.get("sorted"):
-            want = [n for n in c["order"] if n in S]
-            if len(S) > 1 and x["sorted"][0] != want:
-                diverge["sorted-list"] = diverge.get("sorted-list", 0) + 1
+        if "chain" in c:
+            if chain != c["chain"]:
+                self.diverge["chain"] = self.diverge.get("chain", 0) + 1
+                ctx.extra.setdefault("spec_divergence_example", {"case": c, "real": x})
+            elif x["winner"] != c["winner"]:
+                self.diverge["winner"] = self.diverge.get("winner", 0) + 1
+                ctx.extra.setdefault("spec_divergence_example", {"case": c, "real": x})
+            if x.get("sorted") and "order" in c:
+                want = [n for n in c["order"] if n in S]
+                if len(S) > 1 and x["sorted"][0] != want:
+                    self.diverge["sorted-list"] = self.diverge.get("sorted-list", 0) + 1
+        return chain
 
-    for key, g in groups.items():
-        if len(g) > 1:
-            ex = list(g.items())
-            (p1, (c1, x1)), (p2, (c2, x2)) = ex[0], ex[1]
-            same_order = c1["listing"] == c2["listing"]
-            ctx.violation("node-dependent" if same_order else "order-dependent",
-                          "suffrage %s, point (%d,%d), byte sum %d: listing %s (local %s) selects %s, listing %s (local %s) selects %s" % (
-                              list(key[0]), key[1], key[2], key[3], c1["listing"], c1["local"], p1, c2["listing"], c2["local"], p2),
-                          {"a": {"case": c1, "real": x1}, "b": {"case": c2, "real": x2}})
-    for key, g in fgroups.items():
-        if len(g) > 1 and len(groups.get(key[:4], {})) <= 1:
-            ex = list(g.items())
-            (p1, (c1, x1)), (p2, (c2, x2)) = ex[0], ex[1]
-            ctx.violation("fallback-order-dependent",
-                          "suffrage %s, point (%d,%d), byte sum %d, %d failing: listing %s selects %s, listing %s selects %s" % (
-                              list(key[0]), key[1], key[2], key[3], key[5], c1["listing"], list(p1), c2["listing"], list(p2)),
-                          {"a": {"case": c1, "real": x1}, "b": {"case": c2, "real": x2}})
-    if skipped > max(20, len(steps) // 20):
-        raise core.MachineryError("%d of %d cases skipped because the proposer wait ran out before the first request" % (skipped, len(steps)))
+    def history_free(self, c, x, chain):
+        """a call on a selector object that was never asked before: goes into the comparison across listings and nodes"""
+        S = tuple(sorted(c["listing"]))
+        g = self.groups.setdefault((S, c["h"], c["r"], c["hs"]), {})
+        g.setdefault(chain[0], (c, x))
+        fg = self.fgroups.setdefault((S, c["h"], c["r"], c["hs"], c["local"], c["nfail"]), {})
+        fg.setdefault(tuple(chain), (c, x))
+
+    def compare_groups(self):
+        ctx = self.ctx
+        for key, g in self.groups.items():
+            if len(g) > 1:
+                ex = list(g.items())
+                (p1, (c1, x1)), (p2, (c2, x2)) = ex[0], ex[1]
+                same_order = c1["listing"] == c2["listing"]
+                ctx.violation("node-dependent" if same_order else "order-dependent",
+                              "suffrage %s, point (%d,%d), byte sum %d: listing %s (local %s) selects %s, listing %s (local %s) selects %s" % (
+                                  list(key[0]), key[1], key[2], key[3], c1["listing"], c1["local"], p1, c2["listing"], c2["local"], p2),
+                              {"a": {"case": c1, "real": x1}, "b": {"case": c2, "real": x2}})
+        for key, g in self.fgroups.items():
+            if len(g) > 1 and len(self.groups.get(key[:4], {})) <= 1:
+                ex = list(g.items())
+                (p1, (c1, x1)), (p2, (c2, x2)) = ex[0], ex[1]
+                ctx.violation("fallback-order-dependent",
+                              "suffrage %s, point (%d,%d), byte sum %d, %d failing: listing %s selects %s, listing %s selects %s" % (
+                                  list(key[0]), key[1], key[2], key[3], key[5], c1["listing"], list(p1), c2["listing"], list(p2)),
+                              {"a": {"case": c1, "real": x1}, "b": {"case": c2, "real": x2}})
+
+
+def judge_script(J, ctx, sc, row, stats):
+    """one replayed script: every selection of a long-lived selector object against the statement and against the
+    selector object made for that call"""
+    script = sc["script"]
+    if row.get("panic"):
+        raise core.MachineryError("harness failed on a script: %s" % row["panic"][:500])
+    sels = [i for i, e in enumerate(script) if e["k"] == 1]
+    if [r["ev"] for r in row["sels"]] != sels:
+        raise core.MachineryError("harness answered selections %s of script with selections %s" % ([r["ev"] for r in row["sels"]], sels))
+    asked_before = {}          # selector object -> number of selections put to it so far
+    points = set()             # (selector object, point) it was asked for: its pool holds the proposal it got then
+    sufs = {}
+    for i, e in enumerate(script):
+        if e["k"] == 0:
+            sufs[e["g"]] = e["suf"]
+            continue
+        r = row["sels"][sels.index(i)]
+        before = asked_before.get(e["sel"], 0)
+        asked_before[e["sel"]] = before + 1
+        again = (e["sel"], e["h"], e["r"]) in points
+        points.add((e["sel"], e["h"], e["r"]))
+        S = tuple(sorted(e["listing"]))
+        changed = e["h"] >= 2 and sorted(sufs[e["h"] - 1]) != sorted(sufs[e["h"] - 2])
+        ctx.case(["script", [[x["k"], x.get("g"), x.get("suf"), x.get("sel"), x.get("h"), x.get("r"), x.get("hs"), x.get("listing"), x.get("nfail")]
+                             for x in script[:i + 1]]], nontrivial=before > 0 and len(S) > 1,
+                 sample={"script": script[:i + 1], "long_lived": {k: r["vet"][k] for k in ("selected", "asked", "winner")},
+                         "made_for_the_call": {"local": r["twin_local"], "listing": r["twin_listing"],
+                                               **{k: r["twin"][k] for k in ("selected", "asked", "winner")}}})
+        stats["selections"] += 1
+        stats["after_earlier_selections"] += 1 if before else 0
+        stats["after_suffrage_change"] += 1 if before and changed else 0
+        cv = {"listing": e["listing"], "h": e["h"], "r": e["r"], "hs": e["hs"], "local": e["loc"], "nfail": e["nfail"],
+              "chain": e["chain"], "winner": e["winner"], "order": sc["order"]}
+        ct = dict(cv, listing=r["twin_listing"], local=r["twin_local"])
+        if r["twin_local"] != e["loc"] and e["nfail"] > 0:      # the specification's continuation depends on who is local
+            ct.pop("chain"), ct.pop("winner")
+        case = {"script": script[:i + 1], "selection": e, "long_lived_selector": r["vet"],
+                "selector_made_for_the_call": {"local": r["twin_local"], "listing": r["twin_listing"], "real": r["twin"]}}
+        chv = J.observe(cv, r["vet"], case, who="long-lived-selector" if before else "")
+        cht = J.observe(ct, r["twin"], case)
+        if cht is not None:
+            J.history_free(ct, r["twin"], cht)
+        if chv is not None and not before:
+            J.history_free(cv, r["vet"], chv)
+        if chv is None or cht is None or not before:
+            continue
+        what = "selector object asked %d time(s) before (last: point (%d,%d))" % (
+            before, *[(p["h"], p["r"]) for p in script[:i] if p["k"] == 1 and p["sel"] == e["sel"]][-1])
+        if chv[0] != cht[0]:
+            ctx.violation("history-dependent",
+                          "point (%d,%d), byte sum %d, suffrage %s%s: %s selects %s, a selector made for this call selects %s" % (
+                              e["h"], e["r"], e["hs"], list(S), " (changed by the last block)" if changed else "", what, chv[0], cht[0]), case)
+        elif r["twin_local"] == e["loc"] and chv != cht and not again:
+            # (asked for the same point again, the selector finds the proposal in its pool and does not go on to other nodes)
+            ctx.violation("history-dependent;fallback",
+                          "point (%d,%d), suffrage %s, %d failing: %s continues with %s, a selector made for this call with %s" % (
+                              e["h"], e["r"], list(S), e["nfail"], what, chv, cht), case)
+
+
+def run(ctx):
+    quick = ctx.tier == "quick"
+    t0 = time.time()
+    timing = {}
+
+    def lap(name):
+        nonlocal t0
+        timing[name] = round(time.time() - t0, 1)
+        t0 = time.time()
+
+    cfg = "Proposer_mc_quick.cfg" if quick else "Proposer_mc_thorough.cfg"
+    r, steps = ctx.tlc_dump_steps("Proposer", cfg, timeout=1500, workers=8)
+    nex = len(steps)
+    lap("tlc_cases_exhaustive")
+    _, behs = ctx.tlc_simulate("Proposer", "Proposer_sim.cfg", num=150 if quick else 1500, depth=70, timeout=1200)
+    lap("tlc_cases_simulate")
+    rng = random.Random(ctx.seed)
+    for b in behs:
+        c = b[-1]
+        steps.append(c)
+        if len(c["listing"]) > 1:
+            for _ in range(2):          # two more listings of the same suffrage: the specification's answer is the same
+                c2 = dict(c)
+                c2["listing"] = list(c["listing"])
+                rng.shuffle(c2["listing"])
+                steps.append(c2)
+    hcfg = "Proposer_hist_quick.cfg" if quick else "Proposer_hist_thorough.cfg"
+    scripts = hist_scripts(ctx, hcfg)
+    nhex = len(scripts)
+    lap("tlc_histories_exhaustive")
+    scripts += hist_scripts(ctx, "Proposer_hist_sim.cfg", sim=(60 if quick else 600, 30))
+    lap("tlc_histories_simulate")
+    ctx.exhaustive = True
+    kh = cfg_consts(hcfg)
+    ctx.rule = ("single cases (listing, point, previous-block byte sum, local node, number of failing proposers): exhaustive = every "
+                "permutation of every non-empty subset of %d nodes x the points/sums of %s; seeded = one random case per -simulate "
+                "behaviour with 1..64 nodes; non-trivial = at least 2 nodes listed; distinct by the whole case. "
+                "histories: one case per selection of a script, distinct by the script up to it (chain of suffrages by block height, "
+                "selections before it); exhaustive = every maximal script of %s (%d nodes, %d blocks after genesis, %d long-lived selector "
+                "object(s)); seeded = one script per -simulate behaviour of Proposer_hist_sim.cfg; non-trivial = put to a selector object "
+                "that was asked before, at least 2 nodes listed" % (4 if quick else 5, cfg, hcfg, kh["N"], kh["MaxBlocks"], kh["NSel"]))
+    cin = os.path.join(ctx.work, "cases.ndjson")
+    cout = os.path.join(ctx.work, "res.ndjson")
+    keep = ("k", "g", "suf", "hs", "sel", "loc", "h", "r", "listing", "nfail")
+    core.write_ndjson(cin, [{k: s[k] for k in ("listing", "order", "h", "r", "hs", "local", "nfail")} for s in steps] +
+                      [{"order": sc["order"], "script": [{k: e[k] for k in keep if k in e} for e in sc["script"]]} for sc in scripts])
+    ctx.vh(["C07", "replay", "--in", cin, "--out", cout], timeout=3000)
+    rows = core.read_ndjson(cout)
+    lap("harness")
+    if len(rows) != len(steps) + len(scripts):
+        raise core.MachineryError("harness answered %d of %d cases" % (len(rows), len(steps) + len(scripts)))
+
+    J = Judge(ctx)
+    for c, x in zip(steps, rows):
+        S = tuple(sorted(c["listing"]))
+        ctx.case([c["listing"], c["h"], c["r"], c["hs"], c["local"], c["nfail"]], nontrivial=len(S) > 1,
+                 sample={"case": {k: c[k] for k in ("listing", "h", "r", "hs", "local", "nfail")},
+                         "real": {k: x[k] for k in ("selected", "asked", "winner")}, "spec": {"chain": c["chain"], "winner": c["winner"]}})
+        ctx.traces += 1
+        chain = J.observe(c, x, {"case": c, "real": x})
+        if chain is not None:
+            J.history_free(c, x, chain)
+    stats = {"selections": 0, "after_earlier_selections": 0, "after_suffrage_change": 0}
+    for sc, row in zip(scripts, rows[len(steps):]):
+        ctx.traces += 1
+        judge_script(J, ctx, sc, row, stats)
+    J.compare_groups()
+    lap("judge")
+    if J.skipped > max(20, J.total // 20):
+        raise core.MachineryError("%d of %d calls skipped because the proposer wait ran out before the first request" % (J.skipped, J.total))
+    if stats["after_suffrage_change"] < 20:
+        raise core.MachineryError("only %d selections on a long-lived selector after a suffrage change" % stats["after_suffrage_change"])
     ctx.extra["exhaustive_cases"] = nex
     ctx.extra["simulated_cases"] = len(steps) - nex
-    ctx.extra["groups_compared(order/node independence)"] = len(groups)
-    ctx.extra["cases_skipped_wait_ran_out"] = skipped
-    ctx.extra["slowest_case_ms"] = slowest
-    ctx.extra["spec_vs_code_differences(evidence, not a verdict)"] = diverge
+    ctx.extra["history_scripts_exhaustive"] = nhex
+    ctx.extra["history_scripts_simulated"] = len(scripts) - nhex
+    ctx.extra["history_selections(each on a long-lived selector and on one made for the call)"] = stats
+    ctx.extra["groups_compared(order/node independence)"] = len(J.groups)
+    ctx.extra["calls_skipped_wait_ran_out"] = J.skipped
+    ctx.extra["slowest_call_ms"] = J.slowest
+    ctx.extra["spec_vs_code_differences(evidence, not a verdict)"] = J.diverge
+    ctx.extra["GetNodesFunc_asked_for_other_height(offset to the point height: calls; evidence)"] = J.other_heights
+    ctx.extra["timing_s"] = timing
     ctx.assumptions = [
         "the previous block enters only through the sum of its hash bytes (model value hs -> a 32-byte hash with that byte sum)",
-        "failing proposers fail by answering with an error; the first proposer is retried by the code until MinProposerWait (0.6 s here) runs out",
-        "every simulated case is run in three listings (the generated one and two seeded shuffles)",
+        "failing proposers fail by answering with an error; the first proposer is retried by the code until MinProposerWait (1.5 s here) runs out",
+        "every simulated single case is run in three listings (the generated one and two seeded shuffles)",
+        "histories: the suffrage that decides a point of height h is the one in the state of block h-1 (what GetNodesFunc is asked for); "
+        "the selector object made for a single call is another node (the same node when proposers fail) with a seeded shuffle of the listing",
     ]
